@@ -44,6 +44,12 @@ pub fn run_one(
             let profile = props::enga_profile("hist-aspa", tier).unwrap();
             return crate::enga::run(seed, &profile, &mask, &scratch)
         }
+        if property == "C33" && seed % 16 == 0 {
+            // A share of the runs produces a real failure in the middle of
+            // a validation run (the store fails) through Engine A.
+            let profile = props::enga_profile("store-fault", tier).unwrap();
+            return crate::enga::run(seed, &profile, &mask, &scratch)
+        }
         if let Some(profile) = props::enga_profile(&property, tier) {
             return crate::enga::run(seed, &profile, &mask, &scratch)
         }
